@@ -264,6 +264,10 @@ func traceCase(r *gen.Rand) Input {
 		{"return ", "Obj0 instanceof 2", "TypeError", 0, false},
 		{"return ", "Obj0 instanceof Obj0", "TypeError", 0, false},
 		{"return ", "Obj0 instanceof NoProto", "TypeError", 0, false},
+		// [[HasInstance]] of a bound function is its target's (15.3.4.5.3); the bind calls are made here, not at
+		// top level, because the deviation models below refer to the last call made in global code
+		{"return ", "Obj0 instanceof NoProto.bind(null)", "TypeError", 0, false},
+		{"return ", "Obj0 instanceof NoProto.bind(null).bind(Obj0, 1)", "TypeError", 0, false},
 		{"", "with (undefined) {}", "TypeError", 6, false},
 		{"", "with (null) { 1 }", "TypeError", 6, false},
 		{"return ", "NoPrim + 1", "TypeError", 0, true},
@@ -353,6 +357,20 @@ func traceCase(r *gen.Rand) Input {
 			labels[i] = ""
 		}
 		addLine(head)
+		if r.Chance(1, 4) && !(i == n-1 && rk.noPos) && !(i+1 < n && kinds[i+1] == fkGetter) {
+			// (not where a known deviation is modelled as "the frame shows the last call this function made":
+			// an error of ToPrimitive has no position of its own, and a getter is entered by a property read)
+			// an error raised in eval code (or in Function code) and caught in this same activation
+			// leaves this frame's own file and position as they were
+			addLine(pad() + []string{
+				`try { eval("nope_ev") } catch (e0) {}`,
+				`try { eval("\n\n   idf(null.x)") } catch (e0) {}`,
+				`try { eval("throw new Error('in eval')") } catch (e0) {} finally { idf(1) }`,
+				`try { ge("\n nope_ge") } catch (e0) {}`,
+				`try { Function("\n\n return nope_fn")() } catch (e0) {}`,
+				`try { eval("(") } catch (e0) {}`,
+			}[r.Intn(6)])
+		}
 		for _, bl := range bodyLines {
 			ln := addLine(bl)
 			if i == n-1 {
